@@ -22,6 +22,13 @@ CHECKS = {
         note="As C06. A difference from the operational model that satisfies every declarative clause is counted as a deviation, not a violation.",
         ref="§3 C07",
     ),
+    "C10": dict(
+        level="model_checking",
+        technique="TLA+ spec Overlap.tla (PickMin/Pop loop over exact surface-distance order) model-checked by TLC on integer lattices + spec->code replay by object identity + code->spec trace validation (TraceOverlap.tla)",
+        text="TLC checks Separated, Subsequence, Dominated, StrictMaxSurvives, NoNeedlessRemoval, Shrinks and Termination for every emulsion of <=3-4 lattice droplets (1-D/2-D/3-D, periodic/open, tied radii, min_distance of either sign; sqrt(q)-s comparisons decided exactly by squaring). Every emulsion is replayed through remove_overlapping (same objects, same order, second call no-op) and through get_pairwise_distances / overlaps / get_neighbor_distances against the spec's exact q. Random float emulsions (chains, duplicates, crowds, from_random) are projected in exact rationals and judged by TLC.",
+        note="Trusted: TLC, exact-rational projection, pde's grid.distance as the definition of the periodic metric. Tie-breaking among equal radii is not fixed by the property: a different survivor among tied droplets is a deviation, not a violation. get_neighbor_distances(subtract_radius=True) judged only for tied radii (see DESIGN).",
+        ref="§3 C10",
+    ),
 }
 
 NOT_YET = {}
